@@ -35,6 +35,8 @@ BEFORE its keys are walked (or leaves 'index' out of the walk).
 DIRECT-PICK - select_by does not subscript the content list with a value
 supplied by the caller (negative indices wrap). INDEX-OWNER - content and index of a Browser are assigned in the constructor
 only, the index from _build_index().
+VALUE-ORDER - metadata values are ordered (sorted / min / max / sort) only
+through a key= function: values of mixed types are not comparable.
 Not decided: that the inverted index agrees with a naive scan of the items
 (value-level); hashing of metadata values.
 '''
@@ -61,6 +63,7 @@ def check(ctx):
     ctx.run(browser.check_index_build)
     ctx.run(browser.check_index_owner)
     ctx.run(browser.check_direct_pick)
+    ctx.run(browser.check_value_order)
     ctx.count('functions_analysed', analyzer.functions_analysed)
     ctx.count('call_sites_resolved', analyzer.calls_resolved)
     ctx.run(patterns.check_patterns, ID)
@@ -72,6 +75,28 @@ def _variants(program):
     def add(name, kind, editor, expect=None, quick=False, note=''):
         out.append(Variant(name, kind, edit_module(program, MOD, editor),
                            expect, quick, note))
+
+    def _possible_values(keyed):
+        def editor(tree):
+            fun = find_func(tree, 'Browser._filter_items_id_by')
+            for node in ast.walk(fun):
+                if isinstance(node, ast.Call) and call_name(node) == \
+                        'warning' and node.args and 'is not a valid' in \
+                        txt(node.args[0]) and len(node.args) == 3:
+                    node.args[0] = ast.Constant(
+                        value='%s is not a valid %s. Possible ones are %s')
+                    node.args.append(parse_expr(
+                        'sorted(self.available_values(kwd), key=repr)'
+                        if keyed else 'sorted(self.available_values(kwd))'))
+                    return True
+            return False
+        return editor
+    add('seed-warning-lists-the-sorted-values-of-the-key', 'mutant',
+        _possible_values(False), {'VALUE-ORDER'},
+        note='seed C17-r4-1: values of mixed types under one key make '
+             'sorted() raise TypeError inside filter_by')
+    add('twin-warning-lists-the-values-sorted-by-repr', 'twin',
+        _possible_values(True))
 
     def drop_kw(meth, kw):
         def editor(tree):
